@@ -161,14 +161,26 @@ Expected(e) ==
 
 Count(reg) == TLCSet(reg, TLCGet(reg) + 1)
 
-Check(e) ==
-    IF e.res = "inadm" THEN Count(3)          \* the environment refused the input: not an observation
-    ELSE IF Accept(e) THEN TRUE
-    ELSE IF KnownId(e) # "" THEN PrintT(<<"KNOWN", KnownId(e), l>>) /\ Count(2)
-    ELSE PrintT(<<"MISMATCH", l, ToJson(Expected(e))>>) /\ Count(1)
+\* Verdict per line, evaluated once for the whole trace as a value (TLC re-evaluates LET definitions at every
+\* reference inside actions): "ok", "inadm", the id of a known finding, or "mismatch"
+Verdict(e) ==
+    IF e.res = "inadm" THEN "inadm"          \* the environment refused the input: not an observation
+    ELSE IF Accept(e) THEN "ok"
+    ELSE IF KnownId(e) # "" THEN KnownId(e)
+    ELSE "mismatch"
+Verdicts == [i \in 1..Len(Rec) |-> Verdict(Rec[i])]
+V(i) == TLCGet(20)[i]
 
-TraceInit == l = 1 /\ TLCSet(1, 0) /\ TLCSet(2, 0) /\ TLCSet(3, 0)
-TraceNext == l <= Len(Rec) /\ Check(Rec[l]) /\ l' = l + 1
+Check ==
+    CASE V(l) = "ok" -> TRUE
+      [] V(l) = "inadm" -> Count(3)
+      [] V(l) = "mismatch" -> PrintT(<<"MISMATCH", l, ToJson(Expected(Rec[l]))>>) /\ Count(1)
+      [] OTHER -> PrintT(<<"KNOWN", V(l), l>>) /\ Count(2)
+
+TraceInit == l = 1 /\ TLCSet(1, 0) /\ TLCSet(2, 0) /\ TLCSet(3, 0) /\ TLCSet(21, FALSE)
+\* evaluated by the first step, on a worker thread (stack sized by -Xss; the initial predicate runs on the main thread)
+EnsureVerdicts == TLCGet(21) \/ (TLCSet(20, TLCEval(Verdicts)) /\ TLCSet(21, TRUE))
+TraceNext == l <= Len(Rec) /\ EnsureVerdicts /\ Check /\ l' = l + 1
 TraceSpec == TraceInit /\ [][TraceNext]_l
 
 TraceAccepted ==
